@@ -2,6 +2,7 @@ package props
 
 import (
 	"fmt"
+	"os"
 	"testing"
 
 	"github.com/ChrisTrenkamp/xsel"
@@ -57,6 +58,9 @@ func nodeKindClass(n *xmodel.Node) string {
 
 func TestC01(t *testing.T) {
 	runWitnesses(t, "C01")
+	if thorough() || os.Getenv("VERIF_C01_EXHAUSTIVE") != "" {
+		runC01Exhaustive(t)
+	}
 
 	// (i) one step axis::test from every node of the document
 	runProp(t, "step", 6000, 40000, func(t *rapid.T) {
@@ -312,4 +316,124 @@ func checkC01Laws(c *c01LawCase) error {
 		}
 	}
 	return nil
+}
+
+// ---- bounded-exhaustive small trees (thorough tier) ----
+
+// enumForests lists every ordered forest with exactly n nodes whose nodes are
+// drawn from kinds; only elements may have children.  withExtras adds the
+// variants "one attribute" and "one namespace declaration" to elements.
+func enumForests(n int, withExtras bool) [][]xmodel.Event {
+	type variant struct {
+		open  []xmodel.Event
+		close bool // is an element (takes children and an end event)
+	}
+	var kinds []variant
+	for _, name := range []string{"a", "b"} {
+		base := []xmodel.Event{{K: "S", Local: name}}
+		kinds = append(kinds, variant{base, true})
+		if withExtras {
+			kinds = append(kinds, variant{append(append([]xmodel.Event{}, base...), xmodel.Event{K: "A", Local: "id", Value: "1"}), true})
+			kinds = append(kinds, variant{append(append([]xmodel.Event{}, base...), xmodel.Event{K: "N", Local: "p", Value: "urn:x"}), true})
+			kinds = append(kinds, variant{append(append([]xmodel.Event{}, base...), xmodel.Event{K: "N", Local: "p", Value: "urn:x"}, xmodel.Event{K: "A", Local: "id", Value: "1"}), true})
+		}
+	}
+	kinds = append(kinds, variant{[]xmodel.Event{{K: "T", Value: "t"}}, false}, variant{[]xmodel.Event{{K: "C", Value: "c"}}, false}, variant{[]xmodel.Event{{K: "P", Local: "t", Value: "d"}}, false})
+	memo := map[int][][]xmodel.Event{}
+	var forests func(n int) [][]xmodel.Event
+	forests = func(n int) [][]xmodel.Event {
+		if n == 0 {
+			return [][]xmodel.Event{nil}
+		}
+		if f, ok := memo[n]; ok {
+			return f
+		}
+		var out [][]xmodel.Event
+		// first tree has k nodes (1..n), the rest of the forest n-k
+		for k := 1; k <= n; k++ {
+			for _, v := range kinds {
+				if !v.close && k != 1 {
+					continue
+				}
+				var firsts [][]xmodel.Event
+				if v.close {
+					for _, kids := range forests(k - 1) {
+						t := append(append(append([]xmodel.Event{}, v.open...), kids...), xmodel.Event{K: "E"})
+						firsts = append(firsts, t)
+					}
+				} else {
+					firsts = [][]xmodel.Event{v.open}
+				}
+				for _, f := range firsts {
+					for _, rest := range forests(n - k) {
+						out = append(out, append(append([]xmodel.Event{}, f...), rest...))
+					}
+				}
+			}
+		}
+		memo[n] = out
+		return out
+	}
+	return forests(n)
+}
+
+var exhaustiveTests = []xast.Test{{K: "name", L: "a"}, {K: "name", L: "b"}, {K: "any"}, {K: "node"}, {K: "text"}, {K: "comment"}, {K: "pi"}, {K: "pit", L: "t"}, {K: "localany", L: "a"}}
+
+// runC01Exhaustive enumerates every document with up to 3 tree nodes (with
+// attribute / namespace variants) and every document with exactly 4 tree nodes
+// (without them) x every context node x 13 axes x 9 node tests.
+func runC01Exhaustive(t *testing.T) {
+	t.Run("exhaustive", func(t *testing.T) {
+		defer finalizeFailures(t)
+		type step struct {
+			expr *xast.Expr
+			text string
+		}
+		var steps []step
+		for _, ax := range xast.Axes {
+			for _, nt := range exhaustiveTests {
+				if ax == "namespace" && nt.K != "node" && nt.K != "text" && nt.K != "comment" && nt.K != "pi" && nt.K != "pit" {
+					continue // name tests on the namespace axis are out of scope
+				}
+				e := xast.Path(false, &xast.Step{Axis: ax, Test: nt})
+				steps = append(steps, step{e, xast.RenderMinimal(e)})
+			}
+		}
+		var docs [][]xmodel.Event
+		for n := 0; n <= 3; n++ {
+			docs = append(docs, enumForests(n, true)...)
+		}
+		docs = append(docs, enumForests(4, false)...)
+		count := 0
+		for i, ev := range docs {
+			if i%envShards != envShard {
+				continue
+			}
+			p, err := prepareDoc(ev)
+			if err != nil {
+				c := &c10Case{Events: ev}
+				recordFailure("C01", "c01-laws", &c01LawCase{Events: ev}, "store does not mirror the stream: "+err.Error())
+				_ = c
+				t.Fatalf("C01/exhaustive: %v", err)
+			}
+			for _, s := range steps {
+				for _, n := range p.doc.All {
+					c := &evalCase{Events: ev, Ctx: n.Ref(), Expr: s.expr, Text: s.text}
+					out, why, err := evalPrepared(c, p)
+					if out == discarded {
+						st.Discard(why)
+						continue
+					}
+					st.Eval(1)
+					count++
+					if err != nil {
+						recordFailure("C01", "c01-step", c, err.Error())
+						t.Fatalf("C01/exhaustive: %v", err)
+					}
+				}
+			}
+			st.NonTrivial(fmt.Sprint("exhaustive", ev))
+		}
+		st.Note("exhaustive", fmt.Sprintf("every document with <= 3 tree nodes over {a, b, text, comment, pi} with 0/1 attribute and 0/1 namespace declaration per element, and every document with exactly 4 tree nodes without them (%d documents in total) x every context node x 13 axes x 9 node tests, enumerated completely over the shards (this shard: %d step evaluations)", len(docs), count))
+	})
 }
